@@ -79,6 +79,37 @@ PROPS = {
         "assumptions": ["version ids are compared up to the order-preserving bijection issue-rank <-> id string"],
         "timeout": {"quick": 900, "thorough": 3000},
     },
+    "C03": {
+        "title": "Listings are the exact, sorted, correctly grouped view of the live keys",
+        "harness": "c03",
+        "model": "Model/Prefix.v prefix_match + Model/Mem.v scan/list_bucket (unpaginated)",
+        "rule": "per backend: key sets = all subsets of size <= 2 of the 18 keys over {a,b,/} (length <= 3, not starting/ending with "
+                "'/'), seeded subsets of size 3..6 and five 'rich' sets (a-x a/x a.x, UTF-8, nested directories); for each set every "
+                "prefix over {a,b,/} of length <= 3 not starting with '/', delimiter absent and '/' (and 'b' on memory/bolt), V1 or "
+                "V2; the memory backend runs versioned with a delete-marked ghost key; every set is deleted again and the bucket "
+                "re-listed. fs backends: conflict-free sets only. distinct_nontrivial = distinct (backend, key set, prefix, delimiter).",
+        "explanation": "Theorems: Prefix.Match equals the declarative classification (string prefix, first delimiter after it) for "
+                       "every key/prefix/delimiter in the property's domain, and the unpaginated listing is exactly filter+group of the "
+                       "sorted live keys. Tie: ListObjects responses (keys in order, sizes, ETags, common prefixes) of the Go handlers "
+                       "vs the extracted model on every case.",
+        "assumptions": ["keys neither start nor end with the delimiter; prefixes do not start with it (the property's quantifier)"],
+        "timeout": {"quick": 900, "thorough": 3000},
+    },
+    "C04": {
+        "title": "Paginated listing visits every key exactly once and terminates",
+        "harness": "c04",
+        "model": "Model/Mem.v list_bucket: sm_after (Seek + skip marker), scan with max-keys, skip_group, NextMarker/IsTruncated; fallback in Model/Handlers.v",
+        "rule": "memory backend: C03 key sets (with a delete-marked key) x prefixes x delimiter {none,/,b} x every max-keys 1..n+1: "
+                "full walks following the server's continuation (V1 NextMarker or last key, V2 continuation token) checked by the "
+                "walk oracle (page bound, strictly ascending, each common prefix once, concatenation = unpaginated, last page not "
+                "truncated, termination) and page-by-page against the model; single pages from arbitrary markers incl. start-after; "
+                "bolt/fs: fallback with WithUnimplementedPageError on/off. distinct_nontrivial = distinct walks.",
+        "explanation": "Theorems about the paging loop of the model (bound, progress, completeness of the walk by induction on the sorted "
+                       "key list). Tie: every page of every walk from the Go handlers vs the extracted model, plus a model-independent "
+                       "walk oracle evaluated on the implementation's pages.",
+        "assumptions": ["page sizes >= 1 for walks"],
+        "timeout": {"quick": 900, "thorough": 3000},
+    },
 }
 
 # properties whose check is not built yet are listed so the manifest stays honest
